@@ -268,5 +268,14 @@ def run(ctx):
             check_request(ctx, fb, cfg)
         k += check_constructors(ctx, fb, cfg)
         check_generate(ctx, fb, cfg)
+    # R01-6 (shared with C12 R12-2): the software gates reject nothing the circuit can satisfy: message_id_range_check
+    # returns Ok exactly when message_id < user_message_limit (no further condition on the limit or the id)
+    from . import c12
+    from ..main import Ctx as _Ctx
+    sub = _Ctx(ctx.pid, ctx.tier)
+    c12.check_range_gate(sub, ctx.fb("default"))
+    for r in sub.results:
+        if r.instance == "message_id_range_check condition":
+            (ctx.ok if r.status == "ok" else ctx.fail)("R01-6", r.instance, r.reason, r.loc)
     ctx.floor("proving-entry-points", n, 5)
     ctx.floor("constructors", k, 4)
